@@ -109,14 +109,14 @@ CHECKS = {
    ref='7 (C05)'),
  'C06': dict(
    cat='proof',
-   text='On the same machine, a transact block is one writing call whose body is the composition of its inner calls and whose inner file removals happen while the transaction is open (as the code does): COMMIT is atomic and installs the body on the current state, nobody else can change the committed state while the block holds the lock, ROLLBACK leaves the committed state exactly as it was, other clients spin or time out at BEGIN and never enter the transaction, a call joins an open transaction iff it belongs to the calling thread (generated guard). "Every file of every row still resolves after an abort" is refuted by a vm_compute witness (finding C06-F1..F4, D8) and proved for blocks whose inner calls release no value file. With the REAL bodies (TxnBlock): machine invariant, atomic commit and exact restoration on abort for every schedule of programs with blocks over inline values; the findings C06-F1/F2 replayed on the real bodies by vm_compute; single-client programs with nested/aborted/partly caught blocks run by the implementation are followed by the block model (block_check, soundness proved), dangling rows included. FanoutCache.transact commits shard by shard (finding C06-F6). Partial as C05; Cache/Deque/Index/FanoutCache.transact exercised under the scheduler with raise points after every inner call, nesting up to 3, concurrent reader and writer.',
+   text='On the same machine, a transact block is one writing call whose body is the composition of its inner calls and whose inner file removals happen while the transaction is open (as the code does): COMMIT is atomic and installs the body on the current state, nobody else can change the committed state while the block holds the lock, ROLLBACK leaves the committed state exactly as it was, other clients spin or time out at BEGIN and never enter the transaction, a call joins an open transaction iff it belongs to the calling thread (generated guard). "Every file of every row still resolves after an abort" holds for well-behaved bodies (nothing removed before the commit decision) and fails for bodies that remove files early (vm_compute witness). With the REAL bodies (TxnBlock): a block is a well-behaved body for inline and file-backed values (removals are deferred to the outermost COMMIT: generated flag), hence machine invariant, atomic commit and exact restoration on abort for every schedule of programs with blocks; the defect repaired in 5793ab1 (inner calls removed files before the outermost COMMIT: former findings C06-F1..F4) is replayed on the OLD body by vm_compute next to the repaired body; single-client programs with nested/aborted/partly caught blocks run by the implementation are followed by the block model (block_check, soundness proved). FanoutCache.transact commits shard by shard (finding C06-F6). Partial as C05; Cache/Deque/Index/FanoutCache.transact exercised under the scheduler with raise points after every inner call, nesting up to 3, concurrent reader and writer.',
    note='Trusted: as C05. FanoutCache.transact ordering (shards taken in index order) is generated and monitored, its deadlock-freedom is not proved. Nested stores happen inside the open transaction in the code and before BEGIN in the machine (file creation does not interact with the lock).',
    tech='Coq machine invariant + block model over the real bodies (invariant for inline values, vm_compute counterexamples for file-backed ones) + block correspondence with the implementation + generated nesting guard + scheduler-driven monitors (abort snapshot equality, block atomicity, nesting placement, thread ownership)',
    ref='7 (C06)'),
  'C07': dict(
    cat='proof',
    text='Kill is a step of the machine available in every configuration: the invariant (referenced files complete, ownership of unreferenced files, lock consistency) is closed under kills at arbitrary steps for any number of clients; a kill changes neither the committed state nor the files and releases the victim lock; the database only ever changes by a COMMIT that installs a whole body (interrupted call applied entirely or not at all); a free lock is granted at once. Instantiated with the real bodies; at every kill point of the single-call workloads the machine is crashed where the implementation was killed and must hold exactly the rows, counters and files (partial and unreferenced ones included) found in the directory (crash_check, soundness proved). Partial: SQLite WAL recovery and lock release on process death are trusted; a kill inside a SQLite call is only sampled. Exercised: every mutating method x value transitions x inside/outside a block, Deque and Index operations, killed before every traced event (os._exit in a forked child), also inside the opening of a fresh or populated directory, then reopened: contents = completed calls plus possibly the interrupted one, every present key readable, check() reports only unknown files/empty directories, a write succeeds at once, check(fix=True) then check() clean.',
-   note='Trusted: os._exit at an event boundary stands for a kill at that instant; SQLite recovery. Blocks that release a value file and are killed before COMMIT leave a row without its file (finding C07-F1, same root cause as C06-F1).',
+   note='Trusted: os._exit at an event boundary stands for a kill at that instant; SQLite recovery. A kill inside a block that had released a value file used to leave a row without its file (former finding C07-F1, repaired in 5793ab1 with C06-F1; replayed on the old body by C07_kill_in_block_old_body).',
    tech='Coq inductive invariant with kill steps + crash correspondence (machine crashed at the implementation kill point) + exhaustive kill-point enumeration on the implementation',
    ref='7 (C07)'),
  'C14': dict(
